@@ -4,7 +4,7 @@
     of accept loops, connection tasks (whose handler returns or panics), shutdown callers, the
     completion task, pre-shutdown hooks, waiters and arriving connections.  [repaired] is the code
     after the three fix commits, [today] kvarn 0.6.3 as found. *)
-From KV Require Import Bytes Shutdown ShutdownProofs.
+From KV Require Import Bytes Shutdown ShutdownProofs ShutdownBoot ShutdownBootProofs.
 Open Scope nat_scope.
 
 (** Clause 1: in every reachable state, once the shutdown-complete signal has been sent no accept loop
@@ -93,3 +93,59 @@ Example ex_completes :
   | None => False
   end.
 Proof. vm_compute. auto. Qed.
+
+(** ---- start-up ([RunConfig::execute]: for every listener count, bind + listen, spawn; Model/ShutdownBoot.v) ----
+    The accept loops spawned so far accept, count, spawn and finish connections while [execute] is still
+    starting the others; nobody has the manager before [execute] returns.  Every state of that machine is,
+    with the listeners still to come put at the top of their loop and their counts added ([flat]), a
+    reachable state of the transition system above: the initial state [init repaired nl ..] of Model/Shutdown.v
+    is not an assumption about the start-up order but a consequence of it. *)
+Theorem boot_refines : forall nl nc nh nw w,
+  breachable nl nc nh nw w -> reachable repaired (flat w).
+Proof. exact ShutdownBootProofs.boot_refines. Qed.
+
+(** ... and when [execute] returns the manager, the state is itself reachable there *)
+Theorem booted_reachable : forall nl nc nh nw w,
+  breachable nl nc nh nw w -> b_done w = true -> reachable repaired (b_in w).
+Proof. exact ShutdownBootProofs.booted_reachable. Qed.
+
+(** hence both clauses for every schedule that follows any start-up *)
+Theorem startup_then_shutdown : forall nl nc nh nw w sched s,
+  breachable nl nc nh nw w -> b_done w = true -> run repaired (b_in w) sched = Some s ->
+  (finished s = true -> all_done s = true /\ forallb (fun l => negb (l_bound l)) (ls s) = true) /\
+  (requested s = true -> quiescent repaired s -> completed s = true).
+Proof. exact ShutdownBootProofs.startup_then_shutdown. Qed.
+
+(** shutdown cannot have been requested while [execute] has not returned *)
+Theorem startup_not_requested : forall nl nc nh nw w,
+  breachable nl nc nh nw w -> requested (b_in w) = false.
+Proof. exact ShutdownBootProofs.startup_not_requested. Qed.
+
+(** Non-vacuity: two listeners; listener 0 accepts, counts, spawns and finishes one connection and holds a
+    second one while listener 1 is being counted, bound (a client queues on it) and spawned. *)
+Definition ex_boot : list blabel :=
+  [BExec; BExec; BExec; BIn (EConn 0); BIn (LTake 0); BIn (LStep 0); BIn (LStep 0); BExec; BExec; BEnv; BIn (CStep 0);
+   BIn (CStep 0); BIn (EConn 0); BIn (LTake 0); BExec].
+Example ex_boot_done :
+  match brun (binit 2 1 0 1) ex_boot with
+  | Some w => b_done w = true /\ gC (b_in w) = 2%Z /\ map l_pc (ls (b_in w)) = [LGot; LTop] /\ cs (b_in w) = [CDone] /\
+              map l_queue (ls (b_in w)) = [0; 1]
+  | None => False
+  end.
+Proof. vm_compute. auto 6. Qed.
+(** in the middle of it the count is 2 (loop 0 and its connection) while listener 1 is not counted yet; the state
+    it stands for has count 3 and listener 1 at the top of its loop *)
+Example ex_boot_middle :
+  match brun (binit 2 1 0 1) (firstn 7 ex_boot) with
+  | Some w => b_done w = false /\ gC (b_in w) = 2%Z /\ gC (flat w) = 3%Z /\ map l_pc (ls (flat w)) = [LTop; LTop] /\ cs (flat w) = [CRunning]
+  | None => False
+  end.
+Proof. vm_compute. auto 6. Qed.
+(** a shutdown after that start-up completes although a connection was accepted before listener 1 existed *)
+Example ex_boot_then_shutdown :
+  match brun (binit 2 1 0 1) ex_boot with
+  | Some w => let s := drain repaired 400 (b_in w) in
+              requested s = true /\ quiescentb repaired s = true /\ completed s = true /\ length (cs s) = 3
+  | None => False
+  end.
+Proof. vm_compute. auto 6. Qed.
